@@ -1,8 +1,9 @@
 import BibVerif.Wire.Split
+import BibVerif.Wire.AddAll
 namespace Bib.Wire
 
 /-- every command the driver understands -/
 def handlers : List (String × Handler) :=
-  splitHandlers
+  splitHandlers ++ addAllHandlers
 
 end Bib.Wire
